@@ -38,9 +38,10 @@ RULE += ' ' + 'A third of the object scenarios build the FanoutCache / Deque / I
 RULE += ' ' + 'The fixture holds handles pickled by the released version (Cache, FanoutCache, Deque, Index), which must load and lead to the same collections; the FanoutCache object scenario keeps a named cache and a named index with settings of their own while the parent is reopened with explicit settings; JSONDisk histories call iterkeys().'
 RULE += ' ' + "A plain Cache object scenario loads the handle's first pickle again later while another handle changes stored settings in between."
 RULE += ' ' + 'Objects that make their own directory run their database with the default pragmas; a stale handle may write its value back after another handle changed a setting.'
+RULE += ' ' + 'The Cache object scenario runs in 40 % with a Disk subclass that derives state in its constructor from a disk_ setting.'
 ASSUMPTIONS = ['a real fork() carrying an open SQLite handle is not simulated; the pid-change seam checks the library\'s reaction to it',
                'the fixture was written on POSIX by the pinned release (fixtures/make_fixture.py)']
-PROBES = ('lifecycle', 'fork', 'thread_stretch', 'pickle', 'fixture_items', 'newproc', 'move', 'own_temporary_directory', 'released_pickles_loaded', 'parent_reopened_with_settings', 'old_pickle_loaded', 'setting_changed_by_other_handle', 'stale_handle_writes_its_value_back')
+PROBES = ('lifecycle', 'fork', 'thread_stretch', 'pickle', 'fixture_items', 'newproc', 'move', 'own_temporary_directory', 'released_pickles_loaded', 'parent_reopened_with_settings', 'old_pickle_loaded', 'setting_changed_by_other_handle', 'stale_handle_writes_its_value_back', 'user_disk_with_derived_state')
 TECHNIQUE = 'deterministic simulation (simulated processes, pid seam, thread tasks, virtual clock) + model-based checking across lifecycle events; golden-directory regression of the released on-disk format'
 LEVEL_TEXT = ('seeded exploration of histories with lifecycle events under the simulator (process identity and threads are simulated, so '
               'fork and cross-process sharing are replayable), each call compared with the reference model through whichever handle is '
@@ -55,6 +56,32 @@ SETTING_KEYS = ('eviction_policy', 'cull_limit', 'statistics', 'tag_index', 'dis
 PRAGMAS = {'sqlite_cache_size': 'cache_size', 'sqlite_mmap_size': 'mmap_size', 'sqlite_synchronous': 'synchronous'}
 
 
+SaltedDisk = None
+
+
+def salted_disk(dc):
+    """A user Disk whose constructor derives state from one of its disk_ settings (module-level, so that handles pickle)."""
+    global SaltedDisk
+    if SaltedDisk is None:
+        class _SaltedDisk(dc.Disk):
+            def __init__(self, directory, salt='none', **kwargs):
+                super().__init__(directory, **kwargs)
+                self.salt = salt
+                self._prefix = 'ns-%s|' % salt      # derived in the constructor
+
+            def put(self, key):
+                return super().put(self._prefix + key if type(key) is str else key)
+
+            def get(self, key, raw):
+                key = super().get(key, raw)
+                return key[len(self._prefix):] if type(key) is str and key.startswith(self._prefix) else key
+        _SaltedDisk.__name__ = _SaltedDisk.__qualname__ = 'SaltedDisk'
+        _SaltedDisk.__module__ = __name__
+        SaltedDisk = _SaltedDisk
+    return SaltedDisk
+
+
+
 def gen_case(seed, tier):
     rng = random.Random('%s/c18' % seed)
     r = rng.random()
@@ -64,7 +91,7 @@ def gen_case(seed, tier):
         return {'seed': seed, 'cfg': {'kind': 'objects', 'which': rng.choice(('fanout', 'deque', 'index', 'django', 'cache')),
                                       'events': [rng.choice(('reopen', 'pickle', 'newproc', 'fork')) for _ in range(rng.randint(2, 6))],
                                       'shards': rng.choice((1, 2, 3)), 'size_limit': rng.choice((None, 4000000)),
-                                      'maxlen': rng.choice((None, 3, 5)), 'temp': rng.random() < 0.3, 'reopen_settings': rng.random() < 0.5}}
+                                      'maxlen': rng.choice((None, 3, 5)), 'temp': rng.random() < 0.3, 'reopen_settings': rng.random() < 0.5, 'user_disk': rng.random() < 0.4}}
     settings = seqcache.gen_settings(rng, 'c18')
     if rng.random() < 0.4:
         settings['sqlite_cache_size'] = rng.choice((1000, 4096))
@@ -346,7 +373,15 @@ def run_objects(case):
                                        'detail': '%s: named cache %s (expected %s), named index %s (expected %s)' % (
                                            when, sub_items[:4], sorted(submodel.items())[:4], ix_items[:4], sorted(ixmodel.items())[:4])})
         elif which == 'cache':
-            obj = dc.Cache(path, size_limit=10 ** 7, cull_limit=3, statistics=1)
+            ckw = {}
+            if cfg.get('user_disk'):
+                # a user Disk whose constructor derives state from one of its disk_ settings (a key namespace, a cipher pad):
+                # the setting is given once, when the cache is made, and is stored with it
+                SaltedDisk = salted_disk(dc)
+                ckw = {'disk': SaltedDisk, 'disk_salt': 'tenant-7'}
+                probes['user_disk_with_derived_state'] = 1
+            obj = dc.Cache(path, size_limit=10 ** 7, cull_limit=3, statistics=1, **ckw)
+            reopen_kw = {'disk': ckw['disk']} if ckw else {}
             stored = {'size_limit': 10 ** 7, 'cull_limit': 3, 'statistics': 1}
             first_pickle = pickle.dumps(obj)      # a handle pickled right away: a job payload that is loaded much later
             model = {}
@@ -359,7 +394,7 @@ def run_objects(case):
                 if rng.random() < 0.4:
                     # an operator changes a setting through a handle of its own: stored in the directory, so it is everybody's
                     key, value = rng.choice((('size_limit', 5 * 10 ** 7), ('size_limit', 2 * 10 ** 7), ('cull_limit', 7), ('cull_limit', 0)))
-                    other = dc.Cache(path)
+                    other = dc.Cache(path, **reopen_kw)
                     other.reset(key, value)
                     other.close()
                     if rng.random() < 0.4:
@@ -384,10 +419,10 @@ def run_objects(case):
                 if rng.random() < 0.5:
                     probes['old_pickle_loaded'] = 1
                     return pickle.loads(first_pickle)
-                return dc.Cache(path)
+                return dc.Cache(path, **reopen_kw)
 
             def extra(o, when):
-                fresh = dc.Cache(path)
+                fresh = dc.Cache(path, **reopen_kw)
                 got = [{k: getattr(h, k) for k in stored} for h in (o, fresh)]
                 fresh.close()
                 if got != [stored, stored]:
